@@ -8,13 +8,13 @@ from vf.models import capa as CM
 from vf.spec import S, build, short
 from vf.zoo import capa, mvcapa
 
-SHARDS = {"quick": 8, "thorough": 16}
+SHARDS = {"quick": 16, "thorough": 16}
 WATCHDOG = {"quick": 1800, "thorough": 10800}
 CASES = {"quick": 220, "thorough": 2500}
 FLOORS = {
-    "quick": {"distinct_nontrivial": 300, "cases[CAPA]": 300, "cases[MVCAPA]": 300,
-              "prefix_scores_compared": 10000, "cases_with_point_anomaly": 40,
-              "cases_with_pruned_start": 100, "ignore_twins": 100},
+    "quick": {"distinct_nontrivial": 830, "cases[CAPA]": 700, "cases[MVCAPA]": 700,
+              "prefix_scores_compared": 30000, "cases_with_point_anomaly": 780,
+              "cases_with_pruned_start": 730, "ignore_twins": 1300},
     "thorough": {"distinct_nontrivial": 3000, "prefix_scores_compared": 300000},
 }
 ANCHORS = [
